@@ -987,3 +987,106 @@ def monitor_c05(se, stats):
                 it["acked"].update(owed)   # report each once
         prev = cur
     return viol
+
+
+C10_USERS = {"guest": "guest", "alice": "wonder"}
+
+
+def _c10_bit(f):
+    """Recompute the outcome bit of a handshake op from what was actually sent (independent of the generator)."""
+    de = lambda x: "" if x == "-" else x
+    if f[0] == "STARTOK":
+        raw = len(f) > 6 and f[6] == "1"
+        return de(f[3]) == "PLAIN" and not raw and C10_USERS.get(de(f[4])) == de(f[5]) and de(f[4]) in C10_USERS
+    if f[0] == "TUNEOK":
+        return int(f[3]) <= 4096 and int(f[4]) <= 65536
+    if f[0] == "COPEN":
+        return de(f[3]) == "/"
+    return None
+
+
+def monitor_c10(se, stats):
+    """Nothing is reachable without a completed handshake: a connection counts as open only after start-ok with a
+    configured user's password via PLAIN, tune-ok within the limits and open of the existing vhost, in that order;
+    any other frame on an unopened connection ends with that connection gone, and nothing but that connection's own
+    record changes in the broker."""
+    viol = []
+    stage = {}   # raw connections: id -> s | t | k ; opened ones are dropped from here
+    prev = None
+    for i, st in enumerate(se["steps"]):
+        if st["snap"] == ["WEDGED"]:
+            break
+        cur = parse_snap(st["snap"])
+        subs = [x.strip() for x in st["op"][6:].split("|")] if st["op"].startswith("MULTI ") else [st["op"]]
+        fr = frames_of(st)
+        for op in subs:
+            f = op.split()
+            if f[0] == "ACCEPT":
+                stage[int(f[1])] = "s"
+                continue
+            if len(f) < 2 or not f[1].isdigit():
+                continue
+            c = int(f[1])
+            if f[0] in ("STARTOK", "TUNEOK", "COPEN"):
+                bit = _c10_bit(f)
+                if bit != (f[2] == "1"):
+                    raise vlib_infra("session op carries the wrong outcome bit: %s" % op)
+            if c not in stage:
+                continue
+            # an op on a connection that has not completed the handshake
+            stats["ops_on_unopened"] = stats.get("ops_on_unopened", 0) + 1
+            right = (stage[c] == "s" and f[0] == "STARTOK" and f[2] == "1") or (stage[c] == "t" and f[0] == "TUNEOK" and f[2] == "1") \
+                or (stage[c] == "k" and f[0] == "COPEN" and f[2] == "1")
+            mine = [(h, name, args) for (cc, h, name, args, _) in fr if cc == c]
+            names = [n for (_, n, _) in mine]
+            if right:
+                stats["right_steps"] = stats.get("right_steps", 0) + 1
+                nxt = {"s": "t", "t": "k", "k": None}[stage[c]]
+                want = {"s": ["connection.tune"], "t": [], "k": ["connection.open-ok"]}[stage[c]]
+                if names != want:
+                    viol.append({"step": i, "kind": "handshake-reply", "what": "connection %d: the correct handshake step `%s` was answered with %s instead of %s" % (c, op, names, want)})
+                if nxt is None:
+                    stage.pop(c)
+                else:
+                    stage[c] = nxt
+            else:
+                stats["wrong_steps"] = stats.get("wrong_steps", 0) + 1
+                stats.setdefault("wrong_kinds", {})
+                stats["wrong_kinds"][f[0]] = stats["wrong_kinds"].get(f[0], 0) + 1
+                # the connection must be gone by the end of the step, having got at most a connection.close
+                alive = c in cur["conns"]
+                if alive:
+                    viol.append({"step": i, "kind": "still-open", "what": "connection %d (handshake stage %s) survived `%s`: frames %s, stage now %s" % (
+                        c, stage[c], op, names, cur["conns"][c].get("stage"))})
+                bad = [n for n in names if n not in ("connection.close", "GONE", "connection.close-ok")]
+                if bad:
+                    viol.append({"step": i, "kind": "reply-before-open", "what": "connection %d (handshake stage %s) got %s in answer to `%s`" % (c, stage[c], bad, op)})
+                stage.pop(c, None)
+            # no side effect: everything except this connection's own lines is as before
+            if prev is not None:
+                def world(sn):
+                    return [l for l in sn["raw"] if not (l.startswith("conn %d " % c) or l.startswith("ch %d." % c))]
+                if not multi_conn_step(subs, c) and world(cur) != world(prev):
+                    diff = [l for l in world(cur) if l not in world(prev)] + ["-" + l for l in world(prev) if l not in world(cur)]
+                    viol.append({"step": i, "kind": "side-effect", "what": "`%s` on unopened connection %d changed broker state: %s" % (op, c, diff[:4])})
+        # an opened connection must have gone through the three steps: a connection the client never completed the
+        # handshake on may not show as open
+        for c, cn in cur["conns"].items():
+            if c in stage and cn.get("stage") == "o":
+                viol.append({"step": i, "kind": "opened-early", "what": "connection %d shows as open at handshake stage %s (after `%s`)" % (c, stage[c], st["op"])})
+        prev = cur
+    return viol
+
+
+def multi_conn_step(subs, c):
+    """does the step also carry ops of other connections (then the world comparison is not attributable)"""
+    for op in subs:
+        f = op.split()
+        if len(f) > 1 and f[1].isdigit() and int(f[1]) != c:
+            return True
+    return False
+
+
+def vlib_infra(msg):
+    import vlib
+    return vlib.Infra(msg)
